@@ -32,6 +32,10 @@ type entry struct {
 	key      model.Key
 	variants []any    // variants[0] == nil (delete)
 	desc     []string // human/protocol description per variant
+	// invalid[v]: variant v is INVALID BY CONSTRUCTION (fails schema validation or the endpoint-specific
+	// check).  Ground truth independent of the real ValidationFilter: the model is told "deleted" for
+	// these and the semantic oracle demands that the resource is absent from the dataplane state.
+	invalid map[int]bool
 }
 
 func mustNet(s string) calinet.IPNet {
@@ -98,10 +102,21 @@ func ruleSets() [][]model.Rule {
 		{rule("allow", nil)},
 		{rule("deny", func(r *model.Rule) { r.SrcSelector = "a == 'x'" })},
 		{rule("allow", func(r *model.Rule) { r.SrcSelector = "has(b)"; r.NotDstSelector = "a == 'y'" })},
-		{rule("allow", func(r *model.Rule) { r.Protocol = protoP("tcp"); r.DstPorts = namedPort("http"); r.DstSelector = "all()" }),
+		{rule("allow", func(r *model.Rule) {
+			r.Protocol = protoP("tcp")
+			r.DstPorts = namedPort("http")
+			r.DstSelector = "all()"
+		}),
 			rule("deny", func(r *model.Rule) { r.SrcSelector = "role == 'db'" })},
-		{rule("allow", func(r *model.Rule) { r.Protocol = protoP("tcp"); r.SrcPorts = namedPort("http"); r.SrcSelector = "a == 'x'" })},
-		{rule("pass", func(r *model.Rule) { r.SrcNets = []*calinet.IPNet{mustNetP("10.0.0.0/24")}; r.DstSelector = "role in {'db','web'}" })},
+		{rule("allow", func(r *model.Rule) {
+			r.Protocol = protoP("tcp")
+			r.SrcPorts = namedPort("http")
+			r.SrcSelector = "a == 'x'"
+		})},
+		{rule("pass", func(r *model.Rule) {
+			r.SrcNets = []*calinet.IPNet{mustNetP("10.0.0.0/24")}
+			r.DstSelector = "role in {'db','web'}"
+		})},
 		{rule("allow", func(r *model.Rule) { r.Protocol = protoP("udp"); r.DstPorts = namedPort("dns") }),
 			rule("allow", func(r *model.Rule) { r.SrcSelector = "a == 'x'" }), // same selector as another set: shared IP set
 			rule("log", func(r *model.Rule) { r.NotSrcSelector = "has(ns)" })},
@@ -117,7 +132,11 @@ func ruleSets() [][]model.Rule {
 			})},
 		// selectors on a label that several profiles define with DIFFERENT values (first profile wins)
 		{rule("allow", func(r *model.Rule) { r.SrcSelector = "team == 'blue'" }),
-			rule("deny", func(r *model.Rule) { r.Protocol = protoP("tcp"); r.DstSelector = "team == 'red'"; r.DstPorts = namedPort("http") }),
+			rule("deny", func(r *model.Rule) {
+				r.Protocol = protoP("tcp")
+				r.DstSelector = "team == 'red'"
+				r.DstPorts = namedPort("http")
+			}),
 			rule("allow", func(r *model.Rule) { r.NotSrcSelector = "has(team)" })},
 		{rule("allow", func(r *model.Rule) { r.SrcSelector = "a == 'y' || team == 'red'" }),
 			rule("deny", func(r *model.Rule) { r.DstSelector = "role == 'web'"; r.NotDstSelector = "team == 'blue'" })},
@@ -132,6 +151,23 @@ func buildUniverse() []*entry {
 			e.desc = append(e.desc, fmt.Sprintf("%s#%d", name, i))
 		}
 		u = append(u, e)
+	}
+	markInvalid := func(name string, vs ...int) {
+		for _, e := range u {
+			if e.name == name {
+				if e.invalid == nil {
+					e.invalid = map[int]bool{}
+				}
+				for _, v := range vs {
+					if v <= 0 || v >= len(e.variants) {
+						panic("markInvalid: bad variant")
+					}
+					e.invalid[v] = true
+				}
+				return
+			}
+		}
+		panic("markInvalid: unknown " + name)
 	}
 	rs := ruleSets()
 
@@ -148,21 +184,32 @@ func buildUniverse() []*entry {
 		// identical except for the ORDER of the same profile ids
 		wep("cali0", lbl("b", "1"), []string{"p0", "p1"}, []string{"10.0.0.5/32"}, port("http", "tcp", 80)),
 		wep("cali0", lbl("b", "1"), []string{"p1", "p0"}, []string{"10.0.0.5/32"}, port("http", "tcp", 80)),
+		// INVALID (schema): named port whose protocol is not tcp/udp/sctp — otherwise a copy of variant 1
+		wep("cali0", lbl("a", "x", "b", "1"), []string{"p0"}, []string{"10.0.0.1/32"}, port("http", "icmp", 80)),
+		// INVALID (endpoint-specific check): no interface name
+		wep("", lbl("a", "x"), []string{"p0", "p1"}, []string{"10.0.0.1/32"}),
 	)
+	markInvalid("wep:w0", 8, 9)
 	add("wep:w1", wk(localHost, "w1"),
 		wep("cali1", lbl("a", "x"), []string{"p1"}, []string{"10.0.0.3/32"}, port("http", "tcp", 80)),
 		wep("cali1", lbl("a", "x", "role", "web"), []string{"p0", "p1"}, []string{"10.0.0.1/32"}), // shares IP with w0
 		wep("cali1", lbl("b", "2"), []string{"p2", "p0"}, []string{"10.0.0.3/32", "10.0.0.4/32"}, port("dns", "udp", 5353)),
 		wep("cali1", lbl(), []string{"p1", "p0", "p2"}, []string{"10.0.0.6/32"}, port("http", "tcp", 81)),
 		wep("cali1", lbl(), []string{"p0", "p2", "p1"}, []string{"10.0.0.6/32"}, port("http", "tcp", 81)),
+		// INVALID (schema): named port with protocol icmp
+		wep("cali1", lbl("a", "x", "role", "db"), []string{"p1", "p2"}, []string{"10.0.0.3/32"}, port("dns", "icmp", 53)),
 	)
+	markInvalid("wep:w1", 6)
 	add("wep:w2", wk(remote1, "w2"),
 		wep("cali2", lbl("a", "x"), []string{"p0"}, []string{"10.0.1.1/32"}, port("http", "tcp", 80)),
 		wep("cali2", lbl("a", "y", "role", "db"), []string{"p1"}, []string{"10.0.1.1/32", "10.0.1.2/32"}, port("http", "tcp", 81)),
 		wep("cali2", lbl("b", "1"), nil, []string{"10.0.0.1/32"}), // remote sharing local IP
 		wep("cali2", lbl("b", "1"), []string{"p0", "p1"}, []string{"10.0.1.5/32"}, port("http", "tcp", 80)),
 		wep("cali2", lbl("b", "1"), []string{"p1", "p0"}, []string{"10.0.1.5/32"}, port("http", "tcp", 80)),
+		// INVALID (schema), remote: must not contribute IP-set members
+		wep("cali2", lbl("a", "x", "b", "1"), []string{"p0"}, []string{"10.0.1.9/32"}, port("http", "icmp", 80)),
 	)
+	markInvalid("wep:w2", 6)
 	add("wep:w3", wk(remote2, "w3"),
 		wep("cali3", lbl("role", "web"), []string{"p2"}, []string{"10.0.2.1/32"}, port("http", "tcp", 80), port("dns", "udp", 53)),
 		wep("cali3", lbl("a", "x", "b", "1"), []string{"p0", "p2"}, []string{"10.0.2.1/32", "fd00::2/128"}),
@@ -179,7 +226,14 @@ func buildUniverse() []*entry {
 		hep("eth0", lbl("a", "x"), []string{"p0"}, "192.168.0.1"),
 		hep("eth0", lbl("role", "db", "b", "1"), nil, "192.168.0.1", "192.168.0.9"),
 		hep("*", lbl("a", "y"), []string{"p1"}),
+		// INVALID (schema): named port with protocol icmp
+		func() *model.HostEndpoint {
+			h := hep("eth0", lbl("a", "x", "b", "1"), []string{"p0", "p1"}, "192.168.0.1")
+			h.Ports = []model.EndpointPort{port("http", "icmp", 80)}
+			return h
+		}(),
 	)
+	markInvalid("hep:e0", 4)
 	add("hep:e1", model.HostEndpointKey{Hostname: remote1, EndpointID: "e1"},
 		hep("eth0", lbl("a", "x"), []string{"p0"}, "192.168.0.2"),
 		hep("eth1", lbl("role", "web"), nil, "192.168.0.2"),
@@ -190,8 +244,10 @@ func buildUniverse() []*entry {
 			&model.ProfileRules{InboundRules: rs[(1+i)%len(rs)], OutboundRules: rs[(2+i)%len(rs)]},
 			&model.ProfileRules{InboundRules: rs[(4+i)%len(rs)], OutboundRules: rs[1]},
 			&model.ProfileRules{InboundRules: rs[0], OutboundRules: rs[(7+i)%len(rs)]},
-			&model.ProfileRules{InboundRules: []model.Rule{rule("allow", func(r *model.Rule) { r.SrcSelector = "has(" })}}, // INVALID selector
+			&model.ProfileRules{InboundRules: []model.Rule{rule("allow", func(r *model.Rule) { r.SrcSelector = "has(" })}},    // INVALID selector
+			&model.ProfileRules{InboundRules: []model.Rule{rule("allow", func(r *model.Rule) { t := 300; r.ICMPType = &t })}}, // INVALID ICMP type
 		)
+		markInvalid("prules:"+p, 4, 5)
 		mkProf := func(l map[string]string) *v3.Profile {
 			return &v3.Profile{TypeMeta: metav1.TypeMeta{Kind: v3.KindProfile, APIVersion: v3.GroupVersionCurrent},
 				ObjectMeta: metav1.ObjectMeta{Name: p}, Spec: v3.ProfileSpec{LabelsToApply: l}}
@@ -204,7 +260,9 @@ func buildUniverse() []*entry {
 			// the same keys with DIFFERENT values per profile
 			mkProf(map[string]string{"team": []string{"red", "blue", "green"}[i]}),
 			mkProf(map[string]string{"team": []string{"red", "blue", "green"}[i], "a": []string{"x", "y", "x"}[i], "role": []string{"db", "web", "web"}[i]}),
+			mkProf(map[string]string{"bad key!": "x", "a": "x"}), // INVALID label key
 		)
+		markInvalid("plabels:"+p, 7)
 	}
 	// ---- tiers ----
 	add("tier:default", model.TierKey{Name: "default"},
@@ -239,7 +297,9 @@ func buildUniverse() []*entry {
 		pol("default", f64(10), "has(", rs[1], nil, nil), // INVALID selector
 		pol("default", f64(10), "all()", rs[1], nil, func(p *model.Policy) { p.DoNotTrack = true; p.ApplyOnForward = true }),
 		pol("default", f64(10), "team == 'blue'", rs[11], rs[12], nil),
+		pol("default", f64(10), "all()", []model.Rule{rule("allow", func(r *model.Rule) { t := 300; r.ICMPType = &t })}, nil, nil), // INVALID ICMP type
 	)
+	markInvalid("pol:gnp-a", 5, 8)
 	add("pol:gnp-b", model.PolicyKey{Name: "gnp-b", Kind: v3.KindGlobalNetworkPolicy},
 		pol("default", f64(10), "a == 'x'", rs[2], nil, nil), // same order as gnp-a: name tie-break
 		pol("default", f64(5), "role == 'db'", rs[6], rs[6], nil),
